@@ -42,9 +42,9 @@ TRANSLATORS = ["T-invfilters", "T-storedigest", "T-stateid", "T-pathslice", "T-p
 KNOWN = common.known_for("C15")  # entries live in /verif/known_findings.json
 
 ASSUMPTIONS = [
-    "C15_cover / C15_pass_sound are conditional on their visible hypotheses: per-transaction completeness of the symbolic engine (property C02), completeness of the invariant's own run, and the merge hypothesis (equal state ids stand for the same concrete states, also w.r.t. the setUp state) -- the latter is refuted for block fields and for the setUp timestamp (C15_merge_identical_refuted, C15_merge_setup_refuted) and the refutations are reproduced on the real code",
+    "C15_cover / C15_pass_sound are conditional on their visible hypotheses: per-transaction completeness of the symbolic engine (property C02), completeness of the invariant's own run, and the merge hypothesis (equal state ids stand for the same concrete states); with the state id of halmos (C15_cover_snapshot) the latter becomes: what a refreshed state stands for depends only on its balance / code / storage terms, its constraints on state variables and its block fields other than the timestamp; the setUp state is not registered as visited (regenerated flag), so no clause about it is needed",
     "state ids: C15_state_id_identical / C15_cover_snapshot assume collision-free hashes (xxh3_64 / xxh3_128 as injective functions into abstract digest types: a visible hypothesis), one storage-key shape per run (uniform_keys: visible hypothesis) and hash-consed terms (equal id = same term); a hash input is modelled as the list of its fixed-width items (32-byte words from int.to_bytes(_, length=32), 16-byte storage digests), not as bytes; CPython id() reuse for code objects and z3 AST id reuse are not modelled",
-    "the slice: Path._get_related / the dependency update of Path.append / Path.slice are regenerated and proved to give exactly the BACKWARD dependency closure of the state variables (C15_slice_exact); that this is smaller than the constraints on the state is a machine-checked witness (C15_slice_closure_refuted) reproduced on the real code (known finding). The variables of a term (Path.get_var_set, z3) and the sources of the state variables in Exec.path_slice (balance, symbolic code chunks, stored values: shape-checked by the translator) are inputs of the model: on every recorded state the symbols are recomputed from the z3 terms by the harness and the model's slice is compared with Path.sliced",
+    "the slice: the dependency update of Path.append and Path.slice (worklist closure, recognised statement by statement) are regenerated and proved to end within slice_fuel iterations and to give exactly the conditions that constrain the state variables (C15_slice_closure). The variables of a term (Path.get_var_set, z3) and the sources of the state variables in Exec.path_slice (balance, block fields but the timestamp, symbolic code chunks, stored values: shape-checked by the translator) are inputs of the model: on every recorded state the symbols are recomputed from the z3 terms by the harness and the model's slice is compared with Path.sliced",
     "the reference interpreter (Spec/Evm.v) is the EVM oracle; vm.roll/fee/chainId/warp in handlers are given their Foundry meaning by the harness (the block field changes for the rest of the sequence)",
     "probes: the solver's answer for a candidate is an input of the probe model (C15_probe_genuine_reported assumes that every submitted query is answered: on the real code the answers of the last depth are often cut off by the executor shutdown, known finding F12); feasibility of a failing path is decided by the harness with z3 on the path conditions",
     "the extracted model and driver are faithful to the Coq definitions (extraction is trusted)",
@@ -257,7 +257,9 @@ def note_known(rep, sig, what):
         if common.finding_matches(k, {"sig": sig}):
             if k["id"] not in _known_seen:
                 _known_seen[k["id"]] = what
-                print(f"KNOWN-FINDING: property={PID} {k['id']}: {k['what']}\n    reproduced: {what[:400]}")
+                # recorded as a failing input: common.finish() classifies it as the listed finding and prints the KNOWN-FINDING line
+                rep.fail("failing-input", what, case=None, sig=sig)
+                print(f"    reproduced ({k['id']}): {what[:400]}")
             rep.coverage.setdefault("known_findings_reproduced", {})
             rep.coverage["known_findings_reproduced"].setdefault(k["id"], {"what": k["what"], "first_case": what[:600], "hits": 0})
             rep.coverage["known_findings_reproduced"][k["id"]]["hits"] += 1
@@ -323,7 +325,8 @@ def encode_trace(trace, depth, classes=None):
     when given, the frontier model de-duplicates by the MODEL's state id; otherwise by the
     recorded real one"""
     sid = (lambda u, y: classes.get(u, y)) if classes else (lambda u, y: y)
-    enc = [depth, trace["setup"][0], sid(trace["setup"][0], trace["setup"][1]), len(trace["states"])]
+    # (the id of the setUp state only matters if run_contract registers it as visited: Gen/GenInvFilters.v setup_registered_as_visited)
+    enc = [depth, trace["setup"][0], sid(trace["setup"][0], trace["setup"][1]) if trace["setup"][1] != -1 else -2, len(trace["states"])]
     for u, groups in trace["states"].items():
         enc += [int(u), len(groups)]
         for g in groups:
@@ -335,7 +338,7 @@ def encode_trace(trace, depth, classes=None):
 
 def state_tokens(trace):
     """uid -> token of the id the real get_state_id returned (setUp state + every successful end state)"""
-    toks = {trace["setup"][0]: trace["setup"][1]}
+    toks = {trace["setup"][0]: trace["setup"][1]} if trace["setup"][1] != -1 else {}
     for groups in trace["states"].values():
         for g in groups:
             for k, x, y in g["outcomes"]:
@@ -357,6 +360,9 @@ def describe_difference(ca, cb):
         only_a = [ta.get(str(i), c) for i, c in enumerate(ca["conds"]) if c in ia[3] - ib[3]]
         only_b = [tb.get(str(i), c) for i, c in enumerate(cb["conds"]) if c in ib[3] - ia[3]]
         parts.append(f"constraints on state variables differ: {only_a} vs {only_b}")
+    if ia[4] != ib[4]:
+        names = ["basefee", "chainid", "coinbase", "prevrandao", "gaslimit", "number"]
+        parts.append("block fields differ: " + ", ".join(f"{n}: {x // 2 if x % 2 == 0 else 'symbolic'} vs {y // 2 if y % 2 == 0 else 'symbolic'}" for n, x, y in zip(names, ia[4], ib[4]) if x != y))
     return "; ".join(parts) or "no difference"
 
 
@@ -433,7 +439,7 @@ def check_state_ids(rep, name, trace, model, rerun):
     rep.count("l3_state_ids", "cases with merged end states" if merged else "cases without merged end states")
     if any(len({B.spec_identity(comps[u])[3] for u in us}) > 1 for us in _by_terms(comps, uids).values()):
         rep.count("l3_state_ids", "cases with states that differ only in their constraints")
-    if model is None:
+    if model is None or not uids:
         return res
     # ---- model vs implementation: the slice
     calls = []
@@ -725,14 +731,14 @@ def fmt_seq(w):
 QUICK_CORPUS = {
     "counter-lt3-d0", "counter-lt2-d1", "counter-lt2-d2", "counter-lt3-d3", "steps-d2", "toggle-then-step", "two-slots", "arg-set",
     "exclude-contract", "exclude-but-selector-targeted", "target-selector-only-dec", "target-overrides-exclude-selector",
-    "sender-excluded", "sender-targeted", "sender-target-minus-excluded", "not-sender-targeted2",
+    "sender-excluded", "sender-targeted", "not-sender-targeted2", "exclude-selector",
     "test-contract-not-targeted", "test-contract-selector-targeted",
-    "value-needed", "time-after-other-call", "F9-roll", "setup-merge-time", "F12-probe", "value-balance",
-    "branch-cond-arg-small", "branch-cond-arg-big", "branch-cond-arg-d3", "branch-cond-arg-late-store",
+    "value-needed", "time-after-other-call", "F9-roll-after-change", "setup-merge-time", "F12-probe", "value-balance",
+    "branch-cond-arg-small", "branch-cond-arg-big",
     "branch-cond-caller-eq", "branch-cond-value", "branch-cond-unrelated",
     "branch-cond-related-hi", "branch-cond-forward-hi",
-    "instances-tsel-second-hit", "instances-tsel-first-hit", "instances-tsel-holds", "instances-esel-first",
-    "probe-after-refuted-candidate", "probe-sibling-refuted-first", "probe-sibling-genuine-first", "probe-refuted-only",
+    "instances-tsel-second-hit", "instances-tsel-first-hit", "instances-tsel-holds",
+    "probe-after-refuted-candidate", "probe-sibling-refuted-first", "probe-refuted-only",
 }
 
 
